@@ -131,6 +131,13 @@ class Engine(GenericConcreteEngine[Callable[..., Any]]):
                     return tree, commutator.done, commutator.messages
                 else:
                     upstream, done, messages = self.backtrack_unary(commutator.first, target, preferred)
+                    if not done and commutator.second is not tree.operation:
+                        # The commuted first operation was at most partially
+                        # inserted upstream, so the existing operation cannot
+                        # be replaced by the version that assumes it was (e.g.
+                        # a Projection must not be dropped because a narrower
+                        # one was meant to take its place).
+                        return tree, False, commutator.messages + messages
                     if upstream is not target or (done and commutator.second is not tree.operation):
                         # The second condition handles the case where inserting
                         # the first operation upstream was a no-op but moving
